@@ -257,6 +257,10 @@ def validate(traces, variant="code", tag="x04trace"):
         r = tlc.run("TaskEmbedTrace", cfg, workers=1, env={"TRACE_FILE": path}, tag=tag, timeout=600)
     finally:
         os.remove(path)
+        try:
+            os.rmdir("/tmp/x04")
+        except OSError:
+            pass
     by = {}
     for rec in r.emitted:
         by.setdefault(rec["tr"], {})[rec["i"]] = rec
